@@ -26,7 +26,7 @@ META = {
     "technique": "TLA+ contract on abstracted task graphs (denotation, key disjointness, ancestry = happens-before); TLC checks a reference "
                  "transcription on all small configurations and decides records of real clone/bind/wait_on/checkpoint calls, incl. event "
                  "logs of adversarially scheduled executions",
-    "level_text": "TLC enumerates all configurations of 3 (thorough 4) collections in a dependency DAG x {clone, bind, wait_on, checkpoint} "
+    "level_text": "TLC enumerates all configurations of 3 collections (thorough: also 4, without bind) in a dependency DAG x {clone, bind, wait_on, checkpoint} "
                   "x children/parents/omit subsets and proves the contract clauses for the reference transcription (and their violation "
                   "for the transcription that leaves task objects unsubstituted). Every configuration (thorough: a seeded sample of the "
                   "4-collection ones) is instantiated with real dask collections of 4 kinds (delayed trees with Task objects, delayed "
@@ -195,6 +195,13 @@ def needed(g, keys):
     return seen
 
 
+def is_blocker(v):
+    f = getattr(v, "func", None)
+    if f is None and type(v) is tuple and v and callable(v[0]):
+        f = v[0]
+    return f is not None and fname(f) == "CHECKPOINT"
+
+
 def controlled_run(g2, out2, waiters, nworkers=3):
     """Run the result graph with dask.local.get_async; whenever a waiter is in flight it completes first."""
     import dask.local as L
@@ -227,7 +234,7 @@ def run_case(case, kind, seed, assume_layers, split_every, parts=2):
     from dask._task_spec import GraphNode
     op = case["op"]
     rec = {"op": op, "g": [], "g2": [], "out": [], "out2": [], "omitout": [], "keep": [], "parents": [],
-           "obs": {"raised": "", "same": False, "events": []}, "msg": "", "taskobj": False, "stage": ""}
+           "obs": {"raised": "", "same": False, "events": []}, "msg": "", "taskobj": False, "blockwise": False, "stage": ""}
     with warnings.catch_warnings():
         warnings.simplefilter("ignore")
         colls = make_colls(case, kind, parts)
@@ -239,7 +246,9 @@ def run_case(case, kind, seed, assume_layers, split_every, parts=2):
         for c in children:
             hlg = c.__dask_graph__()
             for layer in getattr(hlg, "layers", {}).values():
-                if not isinstance(layer, Blockwise) and any(isinstance(v, GraphNode) and v.dependencies for v in layer.values()):
+                if isinstance(layer, Blockwise):
+                    rec["blockwise"] = True
+                elif any(isinstance(v, GraphNode) and v.dependencies for v in layer.values()):
                     rec["taskobj"] = True
         g = materialize(colls)
         out = flat_keys(children)
@@ -282,9 +291,7 @@ def run_case(case, kind, seed, assume_layers, split_every, parts=2):
             if op != "clone":
                 rec["stage"] = "controlled-run"
                 nd2 = needed(g2, out2)
-                blockers = {k for k in nd2 if fname(getattr(g2[k], "func", g2[k][0] if type(g2[k]) is tuple and g2[k] else None)) == "CHECKPOINT"} \
-                    if True else set()
-                waiters = ({k for k in nd2 if k not in g} - blockers) if op == "bind" else set(out2)
+                waiters = {k for k in nd2 if k not in g and not is_blocker(g2[k])} if op == "bind" else set(out2)
                 ev = controlled_run(g2, out2, waiters)
                 rec["obs"]["events"] = [{"e": e, "k": kid(k)} for e, k in ev]
         except Exception as ex:  # noqa: BLE001
@@ -303,9 +310,15 @@ def _work(item):
 
 
 def classify(case, rec, clause):
+    """Signature = input class of the call; classes behind recorded known findings first."""
     op = case["op"]
+    assume_layers = rec["params"][1]
     if op in ("clone", "bind") and rec["taskobj"]:
         return "%s:task-object-layer" % op
+    if op in ("clone", "bind") and not assume_layers and case["omit"] and rec["blockwise"]:
+        return "%s:assume_layers=False+omit:blockwise" % op
+    if op == "bind" and rec["kind"] == "bag" and clause == "Computes":
+        return "bind:bag:lazified-reify"
     return "%s:%s:%s:omit=%s" % (op, rec["kind"], clause, bool(case["omit"]))
 
 
@@ -326,7 +339,7 @@ def check_cases(ctx, cases, rng, kinds=KINDS):
         rej = ctx.tlc_validate(spec, [{k: r[k] for k in FIELDS} for r in part], cfg, timeout=1500)
         for r in part:
             case = cases[int(r["id"][1:])]
-            ctx.count((case, r["kind"], r["params"]), bool(case["dag"][c_last(case) - 1]) or len(case["children"]) > 1 or case["op"] != "clone")
+            ctx.count((case, r["kind"], r["params"]), case["op"] != "clone" or len(case["regen"]) > 1)
             if r["id"] in rej:
                 clauses = rej[r["id"]][0]
                 cl = clauses.strip('{} "').split('"')[0].split(",")[0] or "Rejected"
@@ -346,10 +359,6 @@ def check_cases(ctx, cases, rng, kinds=KINDS):
     ctx.extra["executions_under_adversarial_schedule"] = ctx.extra.get("executions_under_adversarial_schedule", 0) + \
         sum(1 for r in recs if r["obs"]["events"])
     return len(ctx.violations) - before
-
-
-def c_last(case):
-    return max(case["children"])
 
 
 INVS = ["RefDenotes", "RefDisjoint", "RefRegenerated", "RefHappensBefore", "RefBindsSomething"]
@@ -374,8 +383,9 @@ def run(ctx):
     cases = enumerate_cases(ctx, 3)
     sampled = False
     if not ctx.quick:
-        more = enumerate_cases(ctx, 4)
-        cap = 9000
+        # 4 collections: bind has 2 * 10^5 configurations there - clone / wait_on / checkpoint only
+        more = enumerate_cases(ctx, 4, '{"clone", "wait_on", "checkpoint"}')
+        cap = 5000
         if len(more) > cap:
             more = rng.sample(more, cap)
             sampled = True
@@ -402,4 +412,76 @@ def replay(ctx, obj):
 
 
 def selftest(ctx):
-    return 1
+    import copy
+    import glob
+    import os
+    import sys
+
+    import dask.blockwise  # noqa: F401
+    import dask.graph_manipulation  # noqa: F401
+    import dask.highlevelgraph  # noqa: F401
+    from ..mutate import source_mutant
+    GM, HLG, BW = sys.modules["dask.graph_manipulation"], sys.modules["dask.highlevelgraph"], sys.modules["dask.blockwise"]
+    ok = True
+    rdir = os.path.join(os.path.dirname(os.path.dirname(os.path.dirname(os.path.abspath(__file__)))), "replays")
+    before = set(glob.glob(os.path.join(rdir, "C16-*.json")))
+    cases = enumerate_cases(ctx, 3)
+    cases = random.Random(3).sample(cases, min(len(cases), 220))
+    kinds = ("legacy", "bag", "array")
+
+    def attempt(name):
+        n = check_cases(ctx, cases, random.Random(5), kinds)
+        sigs = sorted({s for s, _, _ in ctx.violations})
+        del ctx.violations[:]
+        ctx.viol_count.clear()
+        print("mutant %s: %s (%d violations; e.g. %s)" % (name, "DETECTED" if n else "MISSED", n, sigs[:3]))
+        return n > 0
+
+    n = check_cases(ctx, cases, random.Random(5), kinds)
+    print("unchanged dask on the self-test case set (%d configurations): %d violations outside the known findings %s"
+          % (len(cases), n, sorted(ctx.known_hit)))
+    ok &= n == 0
+    # mutant 1: materialized layers never inject the blocker (bind does not bind)
+    orig_clone = HLG.Layer.clone
+    HLG.Layer.clone = lambda self, keys, seed, bind_to=None: orig_clone(self, keys, seed, None)
+    try:
+        ok &= attempt("layer-clone-ignores-bind_to")
+    finally:
+        HLG.Layer.clone = orig_clone
+    # mutant 2: the recursive aggregation of checkpoint loses one key per round
+    with source_mutant(GM, "_checkpoint_one", "map_keys = map_keys[split_every:] + [k]", "map_keys = map_keys[split_every + 1:] + [k]"):
+        ok &= attempt("checkpoint-reduction-drops-a-key")
+    # mutant 3: wait_on forgets to depend on the blocker
+    with source_mutant(GM, "wait_on", "chunks.bind, prev_name, new_name, coll, dependencies=(blocker,)",
+                       "chunks.bind, prev_name, new_name, coll, dependencies=()"):
+        ok &= attempt("wait_on-without-blocker")
+    # mutant 4: regenerated keys are not new (clone_key returns the key)
+    saved = GM.clone_key, HLG.clone_key, BW.clone_key
+    GM.clone_key = HLG.clone_key = BW.clone_key = lambda key, seed: key
+    try:
+        ok &= attempt("clone_key-identity")
+    finally:
+        GM.clone_key, HLG.clone_key, BW.clone_key = saved
+    # binding of the trace spec: untouched accepted; a parent's finish moved behind a child's start, and an
+    # output key of the result replaced by the original one, are rejected
+    case = [c for c in cases if c["op"] == "bind" and len(c["parents"]) >= 1 and not c["omit"]][0]
+    rec = run_case(case, "legacy", 1, True, None, 2)
+    rec["id"] = "ok"
+    base = {k: rec[k] for k in FIELDS}
+    bad1 = copy.deepcopy(base)
+    bad1["id"] = "order"
+    ev = bad1["obs"]["events"]
+    pk = bad1["parents"][0]
+    fin = [i for i, e in enumerate(ev) if e["e"] == "finish" and e["k"] == pk][0]
+    ev.append(ev.pop(fin))
+    bad2 = copy.deepcopy(base)
+    bad2["id"] = "key"
+    bad2["out2"][0] = bad2["out"][0]
+    spec, cfg = ctx.model(ctx.spec("graph", "GraphManipTrace.tla"), {})
+    rej = ctx.tlc_validate(spec, [base, bad1, bad2], cfg)
+    print("untouched record: %s; parent finish moved to the end: %s; output key replaced by the original: %s"
+          % (rej.get("ok", "accepted"), rej.get("order", "accepted"), rej.get("key", "accepted")))
+    ok &= "ok" not in rej and "order" in rej and "key" in rej
+    for f in set(glob.glob(os.path.join(rdir, "C16-*.json"))) - before:
+        os.remove(f)
+    return 0 if ok else 1
